@@ -1246,9 +1246,17 @@ class Interp:
         model = self.models.get(path)
         if model is None and cal.get("decl"):
             model = self.models.get(cal["decl"])
-        if model is None:
-            model = self.find_pattern_model(cal)
         r_ = model(self, st, fr, t, args) if model is not None else None
+        if r_ is None:
+            # pattern models in order; a model may decline (None), then the next matching one is asked
+            full_ = cal.get("full") or ""
+            path_ = cal.get("path") or ""
+            for pred_, m_ in (getattr(self, "pattern_models", None) or ()):
+                if m_ is model or not pred_(path_, full_):
+                    continue
+                r_ = m_(self, st, fr, t, args)
+                if r_ is not None:
+                    break
         if r_ is not None:      # a model may decline (None): the callee is then unknown
             if isinstance(r_, tuple) and len(r_) == 4 and r_[0] == "tailcall":
                 # the model continues in a body of the crate; its result is post-processed
